@@ -10,14 +10,16 @@ Inductive bop := BPeek (n : N) | BRead (n : N) | BReadFull (n : N).
 
 Inductive case :=
 (* one scripted connection through the real ServeTCP / websocket relay.
-   [stream]/[segs]: the client's bytes and their segmentation; [cwait]: the client waits
+   [stream]/[segs]: the client's bytes and their segmentation; [fin]: 0 = the client's EOF
+   comes in a Read of its own, k = the Read returning its last bytes also returns error k
+   (1 = io.EOF, 9 = another error); [cwait]: the client waits
    for the whole reply before it ends; [ce]: how it ends; [ut]/[reply]/[ue]: when the
    upstream sends its output and whether it closes afterwards; [rseg1]: the upstream
    pauses after that many bytes of its output; [whead]: length of the websocket
    handshake head inside [reply]; observed: [conn] an upstream connection was made,
    [o_up]/[o_cl] the bytes that arrived at the upstream / at the client. *)
 | CTunnel (k : kind) (pp is4 : bool) (caddr saddr cport sport : str)
-          (stream : str) (segs : list N) (cwait : bool) (ce : cend) (ut : utrig)
+          (stream : str) (segs : list N) (fin : N) (cwait : bool) (ce : cend) (ut : utrig)
           (reply : str) (rseg1 whead : N) (ue : uend)
           (conn : bool) (o_up o_cl : str)
 (* "the client finishes first while the proxy still holds bytes for a slow upstream": the
@@ -54,7 +56,7 @@ Definition res_eqb (a b : str * N * N) : bool :=
 
 Definition check_case (c : case) : N :=
   match c with
-  | CTunnel k pp is4 caddr saddr cport sport stream segs cwait ce ut reply rseg1 whead ue conn o_up o_cl =>
+  | CTunnel k pp is4 caddr saddr cport sport stream segs fin cwait ce ut reply rseg1 whead ue conn o_up o_cl =>
       let line := proxy_line is4 caddr saddr cport sport in
       let ss := split_segs stream segs in
       let spec := spec_b k pp line stream cwait ce ut reply ue o_up o_cl in
@@ -63,7 +65,7 @@ Definition check_case (c : case) : N :=
         else if region_ws_split k reply rseg1 then Some 3
         else if region_half_close cwait ce then Some 2
         else None in
-      match scenario_expect k pp line ss cwait ce ut reply rseg1 whead ue with
+      match scenario_expect k pp line ss fin cwait ce ut reply rseg1 whead ue with
       | Ok e =>
           let same := Bool.eqb conn (e_conn e)
                       && within o_up (e_up e) (e_up_lo e) (nlen' (e_up e))
@@ -82,7 +84,7 @@ Definition check_case (c : case) : N :=
       let region :=
         if region_dyn_proxyproto k pp then Some 4
         else None in
-      match scenario_expect k pp line ss false CClose UOnEOF [] 0 0 UStay with
+      match scenario_expect k pp line ss 0 false CClose UOnEOF [] 0 0 UStay with
       | Ok e =>
           let pre := firstn (length (e_up e) - length stand) (e_up e) in
           let same := Bool.eqb conn (e_conn e)
